@@ -1,18 +1,181 @@
 (* Properties/C03.v — symbolic derivatives are the derivative, and stay usable polynomials.
-   Statements only; every proof is `exact` of a lemma of Proofs/Deriv.v. *)
-From Coq Require Import ZArith NArith List Bool Reals Lra Lia.
+   Statements only; every proof is `exact` of a lemma of Proofs/Deriv.v or Proofs/PolyLemmasWf.v.
+   All statements are about the R instance of Model/Poly.v (exact arithmetic, Rpowf = the real
+   power on powf's natural domain); rounding is measured by the correspondence check.
+
+   Vocabulary (Proofs/PolyLemmas.v, Proofs/Deriv.v, Proofs/PolyLemmasWf.v):
+     upd e v t        the environment e with v bound to t (later bindings win, as in the HashMap)
+     wf_terms ts      inside every term the variable names are pairwise distinct (repaired parser)
+     terms_bound ts e every variable of ts is bound in e
+     dom_pow p x      p integral and (0 <= p or x <> 0), or 0 < x
+     dom_deriv ts v x dom_pow p x for every exponent p of v in ts   (the other variables are
+                      constants of the differentiation: no condition on them is needed)
+     wf_poly p        every term lists its variables strictly increasing by name, i_vars p is
+                      strictly increasing, every variable used is in i_vars p *)
+From Coq Require Import ZArith NArith List Bool Reals Lra Lia Sorted.
 From Coquelicot Require Import Coquelicot.
-From SV Require Import Base.Num Base.Outcome Model.Poly Proofs.PolyLemmas Proofs.Deriv.
+From SV Require Import Base.Num Base.Outcome Model.Poly Proofs.PolyLemmas Proofs.Deriv Proofs.PolyLemmasWf.
 Import ListNotations.
 Local Open Scope R_scope.
 
-Theorem c03_simple : forall (p : spoly R) (x : R),
-  is_derive (eval_simple p) x (eval_simple (simple_derivative p) x).
+(* univariate type: the returned derivative is the derivative, everywhere *)
+Theorem c03_simple :
+  forall (p : spoly R) (x : R),
+    is_derive (eval_simple p) x (eval_simple (simple_derivative p) x).
 Proof. exact Proofs.Deriv.c03_simple. Qed.
-Check c03_simple : forall (p : spoly R) (x : R),
-  is_derive (eval_simple p) x (eval_simple (simple_derivative p) x).
+Check c03_simple :
+  forall (p : spoly R) (x : R),
+    is_derive (eval_simple p) x (eval_simple (simple_derivative p) x).
 Print Assumptions c03_simple.
 
-Example c03_simple_nonvacuous :
-  eval_simple (simple_derivative {| s_coefs := [5; 3; 2]; s_var := Some 120%N |}) 2 = 11.
-Proof. rewrite eval_simple_psum. cbn. rewrite !nofnat_INR. cbn. lra. Qed.
+(* univariate type, trait wrappers: own variable = simple_derivative, a foreign name returns a clone, never an error *)
+Theorem c03_simple_wrappers :
+  forall (p : spoly R) (v : name),
+    s_derivate_univariate p = Ok (simple_derivative p) /\
+    (first_char_is v (s_var p) = true -> s_derivate_multivariate p v = simple_derivative p) /\
+    (first_char_is v (s_var p) = false -> s_derivate_multivariate p v = p) /\
+    (forall x, s_eval_univariate p x = Ok (eval_simple p x)).
+Proof. exact Proofs.Deriv.c03_simple_wrappers. Qed.
+Check c03_simple_wrappers :
+  forall (p : spoly R) (v : name),
+    s_derivate_univariate p = Ok (simple_derivative p) /\
+    (first_char_is v (s_var p) = true -> s_derivate_multivariate p v = simple_derivative p) /\
+    (first_char_is v (s_var p) = false -> s_derivate_multivariate p v = p) /\
+    (forall x, s_eval_univariate p x = Ok (eval_simple p x)).
+Print Assumptions c03_simple_wrappers.
+
+(* multivariate type: t |-> eval ts (e, v:=t) has at x the derivative eval (partial_derivative ts v) (e, v:=x) *)
+Theorem c03_partial :
+  forall (ts : list (term R)) (v : name) (e : env R) (x : R),
+    wf_terms ts -> terms_bound ts (upd e v x) -> dom_deriv ts v x ->
+    exists (f : R -> R) (d : R),
+      (forall t, eval_inter ts (upd e v t) = Ok (f t)) /\
+      eval_inter (i_terms (partial_derivative ts v)) (upd e v x) = Ok d /\
+      is_derive f x d.
+Proof. exact Proofs.Deriv.c03_partial. Qed.
+Check c03_partial :
+  forall (ts : list (term R)) (v : name) (e : env R) (x : R),
+    wf_terms ts -> terms_bound ts (upd e v x) -> dom_deriv ts v x ->
+    exists (f : R -> R) (d : R),
+      (forall t, eval_inter ts (upd e v t) = Ok (f t)) /\
+      eval_inter (i_terms (partial_derivative ts v)) (upd e v x) = Ok d /\
+      is_derive f x d.
+Print Assumptions c03_partial.
+
+(* terms without the variable vanish: an absent name gives the zero polynomial with no variables *)
+Theorem c03_absent :
+  forall (ts : list (term R)) (v : name),
+    (forall t, In t ts -> ~ In v (keys (t_vars t))) ->
+    partial_derivative ts v = {| i_terms := []; i_vars := [] |}.
+Proof. exact Proofs.Deriv.c03_absent. Qed.
+Check c03_absent :
+  forall (ts : list (term R)) (v : name),
+    (forall t, In t ts -> ~ In v (keys (t_vars t))) ->
+    partial_derivative ts v = {| i_terms := []; i_vars := [] |}.
+Print Assumptions c03_absent.
+
+(* ... in particular every multi-letter (or empty) name on parser output, whose names have one letter *)
+Theorem c03_multi_letter :
+  forall (ts : list (term R)) (v : name),
+    single_letter_terms ts -> length v <> 1%nat ->
+    partial_derivative ts v = {| i_terms := []; i_vars := [] |}.
+Proof. exact Proofs.Deriv.c03_multi_letter. Qed.
+Check c03_multi_letter :
+  forall (ts : list (term R)) (v : name),
+    single_letter_terms ts -> length v <> 1%nat ->
+    partial_derivative ts v = {| i_terms := []; i_vars := [] |}.
+Print Assumptions c03_multi_letter.
+
+(* each term of the result comes from a term containing v with exponent p <> 0, coefficient c*p, other factors untouched; v never stays with exponent 0 *)
+Theorem c03_terms_shape :
+  forall (ts : list (term R)) (v : name) (d : term R),
+    wf_terms ts -> In d (i_terms (partial_derivative ts v)) ->
+    (exists t p, In t ts /\ In (v, p) (t_vars t) /\ p <> 0 /\ t_coef d = t_coef t * p /\
+        (forall k q, k <> v -> In (k, q) (t_vars d) -> In (k, q) (t_vars t))) /\
+    (forall q, In (v, q) (t_vars d) -> q <> 0).
+Proof. exact Proofs.Deriv.c03_terms_shape. Qed.
+Check c03_terms_shape :
+  forall (ts : list (term R)) (v : name) (d : term R),
+    wf_terms ts -> In d (i_terms (partial_derivative ts v)) ->
+    (exists t p, In t ts /\ In (v, p) (t_vars t) /\ p <> 0 /\ t_coef d = t_coef t * p /\
+        (forall k q, k <> v -> In (k, q) (t_vars d) -> In (k, q) (t_vars t))) /\
+    (forall q, In (v, q) (t_vars d) -> q <> 0).
+Print Assumptions c03_terms_shape.
+
+(* well-formedness is preserved by all four derive / integrate entry points *)
+Theorem c03_closed :
+  forall (p : ipoly R),
+    wf_poly p ->
+    (forall v, wf_poly (i_derivate_multivariate p v) /\
+               incl (i_vars (i_derivate_multivariate p v)) (i_vars p)) /\
+    (forall v, wf_poly (i_integral_multivariate p v) /\
+               (forall k, In k (i_vars (i_integral_multivariate p v)) -> In k (i_vars p) \/ k = v)) /\
+    (forall d, i_derivate_univariate p = Ok d -> wf_poly d /\ i_vars d = i_vars p) /\
+    (forall q, i_integral_univariate p = Ok q -> wf_poly q /\ (length (i_vars q) <= 1)%nat).
+Proof. exact Proofs.PolyLemmasWf.c03_closed. Qed.
+Check c03_closed :
+  forall (p : ipoly R),
+    wf_poly p ->
+    (forall v, wf_poly (i_derivate_multivariate p v) /\
+               incl (i_vars (i_derivate_multivariate p v)) (i_vars p)) /\
+    (forall v, wf_poly (i_integral_multivariate p v) /\
+               (forall k, In k (i_vars (i_integral_multivariate p v)) -> In k (i_vars p) \/ k = v)) /\
+    (forall d, i_derivate_univariate p = Ok d -> wf_poly d /\ i_vars d = i_vars p) /\
+    (forall q, i_integral_univariate p = Ok q -> wf_poly q /\ (length (i_vars q) <= 1)%nat).
+Print Assumptions c03_closed.
+
+(* with at most one variable (constants included) the univariate entry points answer Ok - no Panic, no TooManyVariables - and their results are again such polynomials *)
+Theorem c03_closed_univariate :
+  forall (p : ipoly R),
+    wf_poly p -> (length (i_vars p) <= 1)%nat ->
+    (forall x, exists y, i_eval_univariate p x = Ok y) /\
+    (exists d, i_derivate_univariate p = Ok d /\ wf_poly d /\ (length (i_vars d) <= 1)%nat) /\
+    (exists q, i_integral_univariate p = Ok q /\ wf_poly q /\ (length (i_vars q) <= 1)%nat).
+Proof. exact Proofs.PolyLemmasWf.c03_closed_univariate. Qed.
+Check c03_closed_univariate :
+  forall (p : ipoly R),
+    wf_poly p -> (length (i_vars p) <= 1)%nat ->
+    (forall x, exists y, i_eval_univariate p x = Ok y) /\
+    (exists d, i_derivate_univariate p = Ok d /\ wf_poly d /\ (length (i_vars d) <= 1)%nat) /\
+    (exists q, i_integral_univariate p = Ok q /\ wf_poly q /\ (length (i_vars q) <= 1)%nat).
+Print Assumptions c03_closed_univariate.
+
+(* the by-name derivative of a polynomial with at most one variable has at most one variable (the repaired F4) *)
+Theorem c03_closed_derivate_multivariate_le1 :
+  forall (p : ipoly R) (v : name),
+    wf_poly p -> (length (i_vars p) <= 1)%nat ->
+    (length (i_vars (i_derivate_multivariate p v)) <= 1)%nat.
+Proof. exact Proofs.PolyLemmasWf.c03_closed_derivate_multivariate_le1. Qed.
+Check c03_closed_derivate_multivariate_le1 :
+  forall (p : ipoly R) (v : name),
+    wf_poly p -> (length (i_vars p) <= 1)%nat ->
+    (length (i_vars (i_derivate_multivariate p v)) <= 1)%nat.
+Print Assumptions c03_closed_derivate_multivariate_le1.
+
+(* distinct names inside each term are enough for the derivative to be well-formed *)
+Theorem c03_partial_derivative_wf :
+  forall (ts : list (term R)) (v : name),
+    wf_terms ts -> wf_poly (partial_derivative ts v).
+Proof. exact Proofs.PolyLemmasWf.partial_derivative_wf. Qed.
+Check c03_partial_derivative_wf :
+  forall (ts : list (term R)) (v : name),
+    wf_terms ts -> wf_poly (partial_derivative ts v).
+Print Assumptions c03_partial_derivative_wf.
+
+(* non-vacuity: the hypotheses of c03_partial hold for 3 x^2 y^-1 + 2 x^(1/2) at x = 3/2, y = 2;
+   wf_poly holds for a two-variable polynomial and for a constant one *)
+Example c03_partial_nonvacuous :
+  let ts := [ {| t_coef := 3; t_vars := [(ex_x, 2); (ex_y, -1)] |};
+              {| t_coef := 2; t_vars := [(ex_x, 1 / 2)] |} ] in
+  wf_terms ts /\ terms_bound ts (upd [(ex_y, 2)] ex_x (3 / 2)) /\ dom_deriv ts ex_x (3 / 2).
+Proof. exact Proofs.Deriv.c03_partial_hyps. Qed.
+
+Example c03_closed_nonvacuous :
+  wf_poly {| i_terms := [ {| t_coef := 3; t_vars := [([120%N], 2); ([121%N], -1)] |};
+                          {| t_coef := 5; t_vars := [] |} ];
+             i_vars := [[120%N]; [121%N]] |}.
+Proof. exact Proofs.PolyLemmasWf.wf_poly_example. Qed.
+
+Example c03_closed_constant_nonvacuous :
+  wf_poly {| i_terms := [ {| t_coef := 5; t_vars := [] |} ]; i_vars := [] |} /\ (length (@nil name) <= 1)%nat.
+Proof. exact Proofs.PolyLemmasWf.wf_poly_constant. Qed.
